@@ -191,6 +191,9 @@ def check_graphs(seeds):
         try:
             with warnings.catch_warnings():
                 warnings.simplefilter('ignore')
+                # history: the same TransitionSystem object is converted twice (first with receptiveness assumptions, which
+                # walk the graph's own edge dicts); the second conversion is the one that is checked
+                lz.graph_to_logic(ts, 'nd', g['ignore_initial'], receptive=True, self_loops=g['self_loops'])
                 aut = lz.graph_to_logic(ts, 'nd', g['ignore_initial'], receptive=g['receptive'], self_loops=g['self_loops'])
         except Exception as e:  # noqa
             import traceback
@@ -303,6 +306,7 @@ def replay(payload):
     try:
         with warnings.catch_warnings():
             warnings.simplefilter('ignore')
+            lz.graph_to_logic(ts, 'nd', g['ignore_initial'], receptive=True, self_loops=g['self_loops'])
             aut = lz.graph_to_logic(ts, 'nd', g['ignore_initial'], receptive=g['receptive'], self_loops=g['self_loops'])
     except Exception as e:  # noqa
         return True, f'graph_to_logic raised {type(e).__name__}: {e}'
